@@ -76,6 +76,11 @@ static void dep_kdf(const uint8_t *pw, size_t pwlen, const uint8_t *salt, size_t
     else for (size_t i = 0; i < keylen; i++) key[i] = (uint8_t)(E.keyfill + i);
     if (E_kdf_hook) E_kdf_hook(key, keylen);
 }
+int E_kdf_table;   /* which table's KDF made the last call */
+static void dep_kdf_b(const uint8_t *pw, size_t pwlen, const uint8_t *salt, size_t saltlen, uint64_t iters, uint8_t *key, size_t keylen) {
+    E_kdf_table = 1; dep_kdf(pw, pwlen, salt, saltlen, iters, key, keylen); E_kdf_table = 0;
+    if (saltlen == 16 && !E_kdf_hook) for (size_t i = 0; i < keylen; i++) key[i] ^= 0x5A;     /* table B's KDF is a different function */
+}
 static void dep_memzero(void *const p, const size_t n) {
     E.n_mz++; logc('Z');
     if (E.nmz < 32) { E.mz[E.nmz].p = p; E.mz[E.nmz].n = n; E.nmz++; }
@@ -84,8 +89,16 @@ static void dep_memzero(void *const p, const size_t n) {
     for (int i = 0; i < E.nlive; i++)
         if ((char *)p <= (char *)E.live[i].p && (char *)p + n >= (char *)E.live[i].p + E.live[i].n) E.live[i].wiped = 1;
 }
-static size_t dep_nfc(const char *s, polyseed_str o) { E.n_nfc++; logc('C'); return u_nfc(s, o, CAP); }
-static size_t dep_nfkd(const char *s, polyseed_str o) { E.n_nfkd++; logc('D'); return u_nfkd(s, o, CAP); }
+/* The output buffer belongs to the callee: like a normaliser that clears its result first, these scribble over the
+ * whole polyseed_str before they read their input.  A caller that passes overlapping buffers, or a buffer smaller
+ * than a polyseed_str, is thereby exposed (the latter to ASan). */
+static size_t hostile_norm(const char *s, char *o, int nfc) {
+    if (s >= o && s < o + PSTR) { memset(o, 0xEE, PSTR); o[0] = 0; return 0; }      /* input inside the output buffer: it is gone */
+    memset(o, 0xEE, PSTR);
+    return nfc ? u_nfc(s, o, CAP) : u_nfkd(s, o, CAP);
+}
+static size_t dep_nfc(const char *s, polyseed_str o) { E.n_nfc++; logc('C'); return hostile_norm(s, o, 1); }
+static size_t dep_nfkd(const char *s, polyseed_str o) { E.n_nfkd++; logc('D'); return hostile_norm(s, o, 0); }
 
 static void *ledger_alloc(size_t n) {
     E.last_alloc_n = n;
@@ -121,7 +134,7 @@ time_t ps_libc_time(time_t *t) { E.n_libc_time++; logc('t'); if (t) *t = LIBC_TI
 
 const polyseed_dependency DEPS[2] = {
     { rand_a, dep_kdf, dep_memzero, dep_nfc, dep_nfkd, time_a, dep_alloc, dep_free },
-    { rand_b, dep_kdf, dep_memzero, dep_nfc, dep_nfkd, time_b, dep_alloc, dep_free },
+    { rand_b, dep_kdf_b, dep_memzero, dep_nfc, dep_nfkd, time_b, dep_alloc, dep_free },
 };
 void deps_variant(int t, int nt, int na, int nf, polyseed_dependency *o) {
     *o = DEPS[t];
@@ -194,12 +207,13 @@ polyseed_data *seed_from_ref(const rseed *r) {
 }
 /* the same abstract seed, but produced by polyseed_create (+ polyseed_crypt with an all-zero
  * mask for the encrypted flag), so the library computes the check value itself */
+uint64_t E_create_clock_shift;
 polyseed_data *seed_via_create(const rseed *r) {
     if (r->features & 8) return NULL;
     uint8_t keep_tape[32], keep_mask[32]; uint64_t keep_clock = E.clock[0];
     memcpy(keep_tape, E.tape[0], 32); memcpy(keep_mask, E.mask, 32);
     memset(E.tape[0], 0, 32); memcpy(E.tape[0], r->secret, 19);
-    E.clock[0] = ref_birthday_time(r->birthday) + 1;
+    E.clock[0] = ref_birthday_time(r->birthday) + 1 + E_create_clock_shift;
     polyseed_data *s = NULL;
     if (polyseed_create(r->features & 7, &s) != POLYSEED_OK) s = NULL;
     if (s && (r->features & 16)) { memset(E.mask, 0, 32); polyseed_crypt(s, ""); }
